@@ -524,10 +524,19 @@ func c06Poll(c *Ctx, p *Prog, rule string) {
 			continue
 		}
 		nsel := 0
-		eachInstr(fn, func(in ssa.Instruction) {
+		// the function together with the helpers of the screen it calls (a select moved into
+		// `forwardEvent` or `isStopped` is still part of it)
+		var instrs []ssa.Instruction
+		for _, d := range deepInstrs(p, fn, 1, func(_ ssa.Instruction, callee *ssa.Function) bool {
+			return recvTypeName(callee) == "tcell.baseScreen"
+		}) {
+			instrs = append(instrs, d.in)
+		}
+		for _, in := range instrs {
 			if deadBlock(in.Block()) {
-				return
+				continue
 			}
+			inHelper := in.Parent() != fn
 			switch x := in.(type) {
 			case *ssa.Send:
 				c.Fail(rule, name+":bare-send", p.pos(in.Pos()), "blocking send without a StopQ alternative")
@@ -537,7 +546,7 @@ func c06Poll(c *Ctx, p *Prog, rule string) {
 				}
 			case *ssa.Select:
 				if !x.Blocking {
-					return
+					continue
 				}
 				nsel++
 				stopIdx := -1
@@ -549,11 +558,11 @@ func c06Poll(c *Ctx, p *Prog, rule string) {
 				key := fmt.Sprintf("%s:select#%d", name, nsel)
 				if stopIdx < 0 {
 					c.Fail(rule, key, p.pos(in.Pos()), "blocking select without a receive on StopQ()")
-					return
+					continue
 				}
 				ok := true
 				detail := "has a StopQ() case"
-				if name == "PollEvent" {
+				if name == "PollEvent" && !inHelper {
 					blk := selectCaseBlock(x, stopIdx)
 					ok = false
 					if blk != nil && len(blk.Instrs) > 0 {
@@ -565,7 +574,7 @@ func c06Poll(c *Ctx, p *Prog, rule string) {
 				}
 				c.Check(ok, rule, key, p.pos(in.Pos()), detail)
 			}
-		})
+		}
 		if nsel == 0 {
 			c.Undecided(rule, name+":select", p.pos(fn.Pos()), "no blocking select found")
 		}
@@ -585,9 +594,35 @@ func c06Poll(c *Ctx, p *Prog, rule string) {
 					}
 				}
 			})
-			ok := first != nil
+			// … or the same poll in a boolean helper (`if b.isStopped() { return nil }`)
+			var firstI ssa.Instruction
+			if first != nil {
+				firstI = first
+			} else {
+				eachInstr(fn, func(in ssa.Instruction) {
+					call, isCall := in.(*ssa.Call)
+					if !isCall || firstI != nil {
+						return
+					}
+					h := call.Call.StaticCallee()
+					if h == nil || h.Pkg != fn.Pkg || !isStopPollHelper(h) {
+						return
+					}
+					for _, r := range referrers(call) {
+						if iff, isIf := r.(*ssa.If); isIf && iff.Cond == ssa.Value(call) {
+							blk := iff.Block().Succs[0]
+							if len(blk.Instrs) > 0 {
+								if ret, isRet := blk.Instrs[len(blk.Instrs)-1].(*ssa.Return); isRet && len(ret.Results) == 1 && isNilConst(ret.Results[0]) {
+									firstI = call
+								}
+							}
+						}
+					}
+				})
+			}
+			ok := firstI != nil
 			eachInstr(fn, func(in ssa.Instruction) {
-				if sel, isSel := in.(*ssa.Select); isSel && sel.Blocking && (first == nil || !instrDominates(first, sel)) {
+				if sel, isSel := in.(*ssa.Select); isSel && sel.Blocking && (firstI == nil || !instrDominates(firstI, sel)) {
 					ok = false
 				}
 			})
@@ -855,4 +890,49 @@ func c06FinishedStays(c *Ctx, p *Prog) {
 	} else {
 		c.Undecided("C06-R10", "finish", "-", "not found")
 	}
+}
+
+// isStopPollHelper: h answers, without blocking, whether the screen's stop channel is closed: a
+// non-blocking select whose only state is the receive from StopQ(), true returned where it fires,
+// false otherwise.
+func isStopPollHelper(h *ssa.Function) bool {
+	res := h.Signature.Results()
+	if res.Len() != 1 || len(h.Blocks) == 0 {
+		return false
+	}
+	if bt, ok := res.At(0).Type().Underlying().(*types.Basic); !ok || bt.Kind() != types.Bool {
+		return false
+	}
+	var sel *ssa.Select
+	n := 0
+	eachInstr(h, func(in ssa.Instruction) {
+		if x, ok := in.(*ssa.Select); ok {
+			n++
+			if !x.Blocking && len(x.States) == 1 && x.States[0].Dir == types.RecvOnly && chanName(x.States[0].Chan, nil, 0) == "iface.StopQ()" {
+				sel = x
+			}
+		}
+	})
+	if sel == nil || n != 1 {
+		return false
+	}
+	fired := selectCaseBlock(sel, 0)
+	if fired == nil {
+		return false
+	}
+	okTrue, okFalse := false, true
+	for _, r := range returnsOf(h) {
+		v, isC := constBool(derefCell(resultOf(r, 0)))
+		if !isC {
+			return false
+		}
+		inFired := r.Block() == fired || fired.Dominates(r.Block())
+		if v && inFired {
+			okTrue = true
+		}
+		if v && !inFired {
+			okFalse = false
+		}
+	}
+	return okTrue && okFalse
 }
